@@ -298,6 +298,7 @@ func c17Explore(r *ev.Run, dbs *schemas.DB, sc c17Scenario, bound int) {
 		execs++
 		r.Add("transitions", int64(len(res.Points)))
 		r.Add("executions", 1)
+		workers.Heartbeat()
 		var trace []string
 		for _, p := range res.Points {
 			trace = append(trace, p.Op)
